@@ -4,7 +4,7 @@
    protocol): 2 perturbations x 3 sample values, all 9 combinations of sampler kinds
    (scalar / cycling range / seeded stream), all 81 random streams, with and without a
    compensator, three failure sets, two sessions built with the same seed.  RowsTrue,
-   NominalReproduced, Reproducible, EndStateNominal, ResetRestores and HandlesNominal hold
+   RowsCompensated, NominalReproduced, Reproducible, EndStateNominal, ResetRestores and HandlesNominal hold
    for the protocol with both resets, also when the user goes on with the same object
    after the run (up to four what-if steps: Perturbation.apply / apply_compensators in any
    order, then reset()); negative configurations document what they guard: without the
@@ -60,7 +60,10 @@ def model_checks(ctx):
     for name, want in (("MC_Tolerancing_mc_nofinalreset.cfg", "EndStateNominal"),
                        ("MC_Tolerancing_sens_notrialreset.cfg", "RowsTrue"),
                        # ... and is exposed by a what-if history (two compensations without a reset, then reset())
-                       ("MC_Tolerancing_sens_whatif_rebases.cfg", "EndStateNominal")):
+                       ("MC_Tolerancing_sens_whatif_rebases.cfg", "EndStateNominal"),
+                       # a compensator that does nothing after its first run: every row stays consistent with the
+                       # compensator value it records (RowsTrue holds) - RowsCompensated is what it violates
+                       ("MC_Tolerancing_sens_compskips.cfg", "RowsCompensated")):
         r = ctx.model_check("MC_Tolerancing", variant(name), workers=8, timeout=800, must_pass=False)
         if want not in r.violated:
             raise T.MachineryError("negative configuration %s: TLC was expected to report %s violated, got %r\n%s"
